@@ -2,6 +2,11 @@ import BU.Py
 import BU.Spec.Ecdsa
 import BU.Spec.CurveLaws
 import BU.Model.Msg
+import BU.Proofs.KeyLemmas
+import Mathlib.Data.ZMod.Basic
+import Mathlib.Tactic.Ring
+/-! Helper lemmas for C14 (signed messages): an if/match normal form of `Model.verifyMessage`, the modular
+arithmetic of public-key recovery, and the group-law steps of sign-then-verify. -/
 namespace MsgLemmas
 open Py Spec Model Secp
 
@@ -123,36 +128,43 @@ theorem verifyN_true (h : verifyN sq oc mulF addF g inv verD nn pp z addrOf addr
       verD q z (ofBE ((sig.drop 1).take 32)) (ofBE ((sig.drop 33).take 32)) = .ok true ∧
       addrOf q (decide ((sig.getD 0 0).toNat ≥ 31)) = address := by
   unfold verifyN at h
-  split at h
-  · cases h
-  rename_i hlen
+  by_cases hlen : sig.length ≠ 65
+  · rw [if_pos hlen] at h; cases h
+  rw [if_neg hlen] at h
   simp only at h
-  split at h
-  · cases h
-  rename_i hw
-  split at h
-  · cases h
-  split at h
-  · cases h
-  split at h
-  · cases h
-  split at h
-  · cases h
-  rename_i q hq
-  split at h
-  · cases h
-  rename_i v hv
-  split at h
-  · cases h
-  rename_i hvf
-  split at h
-  · rename_i ha
-    refine ⟨by omega, by omega, by omega, q, ?_, ha⟩
-    rw [hv]
-    cases v
-    · exact absurd rfl hvf
-    · rfl
-  · cases h
+  by_cases hw : (sig.getD 0 0).toNat < 27 ∨ (sig.getD 0 0).toNat > 35
+  · rw [if_pos hw] at h; cases h
+  rw [if_neg hw] at h
+  generalize (if (sig.getD 0 0).toNat ≥ 31 then _ else _) = recid at h
+  generalize ofBE ((sig.drop 1).take 32) = r at h ⊢
+  generalize ofBE ((sig.drop 33).take 32) = s at h ⊢
+  generalize pickRoot _ _ = pr at h
+  cases pr with
+  | error e => cases h
+  | ok y =>
+    simp only at h
+    generalize oc _ = ocv at h
+    generalize mulF _ _ = Q at h
+    cases ocv with
+    | false => simp at h
+    | true =>
+      by_cases hrn : r % nn = 0
+      · simp [hrn] at h
+      · cases Q with
+        | none => simp [hrn] at h
+        | some q =>
+          simp only [hrn, if_false, Bool.true_eq_false] at h
+          cases hv : verD q z r s with
+          | error e => rw [hv] at h; cases h
+          | ok v =>
+            rw [hv] at h
+            cases v with
+            | false => simp at h
+            | true =>
+              simp only [Bool.true_eq_false, if_false] at h
+              by_cases ha : addrOf q (decide ((sig.getD 0 0).toNat ≥ 31)) = address
+              · exact ⟨by omega, by omega, by omega, q, hv, ha⟩
+              · rw [if_neg ha] at h; cases h
 
 theorem verifyN_window :
     (sig.length ≠ 65 → verifyN sq oc mulF addF g inv verD nn pp z addrOf address sig = .error .valueError) ∧
@@ -191,5 +203,124 @@ theorem verifyN_eval (hlen : sig.length = 65)
   simp only [Bool.true_eq_false, if_false]
 
 end abstract
+
+theorem verifyDigest_ok_iff (q : Nat × Nat) (z r s : Nat) :
+    ecdsaVerifyDigest q z r s = .ok true ↔ ecdsaVerify (some q) z r s = true := by
+  unfold ecdsaVerifyDigest
+  generalize ecdsaVerify (some q) z r s = b
+  cases b <;> simp
+
+/-! ### modular arithmetic of key recovery (in `ZMod m`, using only the inverse equations) -/
+
+private theorem cast_eq_one {m a b : Nat} (h : a * b % m = 1) : ((a : ZMod m)) * (b : ZMod m) = 1 := by
+  have h' := congrArg (Nat.cast : Nat → ZMod m) h
+  rw [ZMod.natCast_mod] at h'
+  push_cast at h'
+  exact h'
+
+private theorem cast_negmod (m z : Nat) (hm : 0 < m) : (((m - z % m) % m : Nat) : ZMod m) = -(z : ZMod m) := by
+  have : z % m ≤ m := Nat.le_of_lt (Nat.mod_lt _ hm)
+  rw [ZMod.natCast_mod, Nat.cast_sub this, ZMod.natCast_self, ZMod.natCast_mod, zero_sub]
+
+/-- the verification scalar of the candidate key built from `κ·G` is `κ` -/
+theorem scalar_id (m κ s z r w ri : Nat) (hκ : κ < m) (hsw : s * w % m = 1) (hrr : r * ri % m = 1) :
+    (z % m * w % m + (((κ * s % m + (m - z % m) % m) % m) * ri % m) * (r * w % m) % m) % m = κ := by
+  have hm : 0 < m := by omega
+  have : NeZero m := ⟨by omega⟩
+  have e1 := cast_eq_one hsw
+  have e2 := cast_eq_one hrr
+  have e3 := cast_negmod m z hm
+  have goal : (((z % m * w % m + (((κ * s % m + (m - z % m) % m) % m) * ri % m) * (r * w % m) % m) % m : Nat) : ZMod m)
+      = (κ : ZMod m) := by
+    simp only [ZMod.natCast_mod, Nat.cast_add, Nat.cast_mul]
+    rw [← ZMod.natCast_mod (m - z % m) m, e3]
+    calc (z : ZMod m) * w + (κ * s + -z) * ri * (r * w)
+        = (z : ZMod m) * w + (κ * s + -z) * w * ((r : ZMod m) * ri) := by ring
+      _ = κ * ((s : ZMod m) * w) := by rw [e2]; ring
+      _ = κ := by rw [e1, mul_one]
+  rw [ZMod.natCast_eq_natCast_iff'] at goal
+  rw [Nat.mod_mod] at goal
+  rw [goal, Nat.mod_eq_of_lt hκ]
+
+
+/-- the candidate built from the signer's own `R = k·G` is the signer's key -/
+theorem scalar_k (m k d z r s ki ri : Nat) (hd : d < m) (hkk : k * ki % m = 1) (hrr : r * ri % m = 1)
+    (hs : s = ki * ((z % m + r * d) % m) % m) :
+    ((k * s % m + (m - z % m) % m) % m) * ri % m = d := by
+  have hm : 0 < m := by omega
+  have : NeZero m := ⟨by omega⟩
+  have e1 := cast_eq_one hkk
+  have e2 := cast_eq_one hrr
+  have e3 := cast_negmod m z hm
+  have goal : ((((k * s % m + (m - z % m) % m) % m) * ri % m : Nat) : ZMod m) = (d : ZMod m) := by
+    simp only [ZMod.natCast_mod, Nat.cast_add, Nat.cast_mul]
+    rw [← ZMod.natCast_mod (m - z % m) m, e3, hs]
+    simp only [ZMod.natCast_mod, Nat.cast_add, Nat.cast_mul]
+    calc ((k : ZMod m) * (ki * (z + r * d)) + -z) * ri
+        = (((k : ZMod m) * ki) * (z + r * d) + -z) * ri := by ring
+      _ = d * ((r : ZMod m) * ri) := by rw [e1]; ring
+      _ = d := by rw [e2, mul_one]
+  rw [ZMod.natCast_eq_natCast_iff', Nat.mod_mod] at goal
+  rw [goal, Nat.mod_eq_of_lt hd]
+
+/-- the candidate built from `−R = (m−k)·G`: its scalar `e'` satisfies `e'·r ≡ −(2z + r d)` -/
+theorem scalar_negk (m k d z r s ki ri : Nat) (hm : 0 < m) (hk : k ≤ m) (hkk : k * ki % m = 1) (hrr : r * ri % m = 1)
+    (hs : s = ki * ((z % m + r * d) % m) % m) :
+    (((((m - k) * s % m + (m - z % m) % m) % m) * ri % m : Nat) : ZMod m) * (r : ZMod m) =
+      -(2 * (z : ZMod m) + r * d) := by
+  have : NeZero m := ⟨by omega⟩
+  have e1 := cast_eq_one hkk
+  have e2 := cast_eq_one hrr
+  have e3 := cast_negmod m z hm
+  simp only [ZMod.natCast_mod, Nat.cast_add, Nat.cast_mul]
+  rw [← ZMod.natCast_mod (m - z % m) m, e3, hs, Nat.cast_sub hk, ZMod.natCast_self]
+  simp only [ZMod.natCast_mod, Nat.cast_add, Nat.cast_mul]
+  calc ((0 - (k : ZMod m)) * (ki * (z + r * d)) + -z) * ri * r
+      = (-(((k : ZMod m) * ki) * (z + r * d)) + -z) * ((r : ZMod m) * ri) := by ring
+    _ = -(2 * (z : ZMod m) + r * d) := by rw [e1, e2]; ring
+
+theorem negk_ne_zero (m k d z r s ki ri : Nat) (hm : 0 < m) (hk : k ≤ m) (hkk : k * ki % m = 1) (hrr : r * ri % m = 1)
+    (hs : s = ki * ((z % m + r * d) % m) % m) (hinf : (2 * z + r * d) % m ≠ 0) :
+    ((((m - k) * s % m + (m - z % m) % m) % m) * ri % m) ≠ 0 := by
+  intro h0
+  have h := scalar_negk m k d z r s ki ri hm hk hkk hrr hs
+  rw [h0, Nat.cast_zero, zero_mul] at h
+  apply hinf
+  have : (((2 * z + r * d : Nat)) : ZMod m) = 0 := by
+    push_cast
+    rw [← neg_eq_zero]; exact h.symm
+  rwa [ZMod.natCast_eq_zero_iff, Nat.dvd_iff_mod_eq_zero] at this
+
+theorem negk_ne_d (m k d z r s ki ri : Nat) (hodd : m % 2 = 1) (hk : k ≤ m) (hkk : k * ki % m = 1)
+    (hrr : r * ri % m = 1) (hs : s = ki * ((z % m + r * d) % m) % m) (hs0 : s ≠ 0) :
+    ((((m - k) * s % m + (m - z % m) % m) % m) * ri % m) ≠ d := by
+  intro hd
+  have hm : 0 < m := by omega
+  have : NeZero m := ⟨by omega⟩
+  have h := scalar_negk m k d z r s ki ri hm hk hkk hrr hs
+  rw [hd] at h
+  -- 2 (z + r d) = 0
+  have h2 : (2 : ZMod m) * ((z : ZMod m) + r * d) = 0 := by
+    have : (2 : ZMod m) * ((z : ZMod m) + r * d) = (d : ZMod m) * r + (2 * (z : ZMod m) + r * d) := by ring
+    rw [this, h]; ring
+  -- 2 is invertible modulo the odd m
+  have hinv : (((m + 1) / 2 : Nat) : ZMod m) * 2 = 1 := by
+    have : ((((m + 1) / 2) * 2 : Nat) : ZMod m) = ((m + 1 : Nat) : ZMod m) := by
+      congr 1; omega
+    rw [Nat.cast_mul, Nat.cast_add, ZMod.natCast_self, zero_add] at this
+    simpa using this
+  have h3 : ((z : ZMod m) + r * d) = 0 := by
+    calc ((z : ZMod m) + r * d) = ((((m + 1) / 2 : Nat) : ZMod m) * 2) * ((z : ZMod m) + r * d) := by
+          rw [hinv, one_mul]
+      _ = (((m + 1) / 2 : Nat) : ZMod m) * (2 * ((z : ZMod m) + r * d)) := by ring
+      _ = 0 := by rw [h2, mul_zero]
+  have hsz : ((s : Nat) : ZMod m) = 0 := by
+    rw [hs]
+    simp only [ZMod.natCast_mod, Nat.cast_add, Nat.cast_mul]
+    rw [h3, mul_zero]
+  rw [ZMod.natCast_eq_zero_iff] at hsz
+  have hslt : s < m := by rw [hs]; exact Nat.mod_lt _ hm
+  exact hs0 (Nat.eq_zero_of_dvd_of_lt hsz hslt)
+
 
 end MsgLemmas
